@@ -3169,6 +3169,15 @@ def nodes_of_new(r: R, chk, quals: List[str], callee: str = "curves.BaseCurve.up
                 return isinstance(e, ast.Constant) and e.value is None
 
             stray = [v for v in values if not from_kv(v) and not is_none(v)]
+            # `K if cond else None`: the choice between "these knots" and "no nodes" is a property of the NEW vector too (its degree
+            # being 0): a condition on the curve's own, old degree differs when the removal changes the degree (end knots)
+            for v in values:
+                if isinstance(v, ast.IfExp) and (is_none(v.body) or is_none(v.orelse)) and not from_kv(v.test):
+                    stray.append(v.test)
+            for st in defs:
+                holder_if = next((x for x in ast.walk(fi.node) if isinstance(x, ast.If) and any(y is st for b_ in (x.body, x.orelse) for y in b_)), None)
+                if holder_if is not None and not from_kv(holder_if.test) and any(is_none(d_.value) for d_ in defs):
+                    stray.append(holder_if.test)
             mentions = bool(values) and not stray and any(from_kv(v) for v in values)
             expr = stray[0] if stray else (values[0] if values else None)
             # in-place changes / rebinding of the new vector after the nodes were taken
